@@ -97,7 +97,7 @@ func run(tapeJSON json.RawMessage, res *core.Result) {
 		renew = "1h"
 	}
 	cm := gk.ConfModel{DefaultRealm: "SIM.TEST", NoAddresses: &yes, RenewLifetime: renew, TktEtypes: []string{gk.EtypeNames[18], gk.EtypeNames[17]}, TGSEtypes: []string{gk.EtypeNames[18]},
-		Realms: map[string][]string{"SIM.TEST": addrs, "OTHER.TEST": {"10.0.1.1:88"}}, DomainRealm: map[string]string{".sim.test": "SIM.TEST", "sim.test": "SIM.TEST"}}
+		SplitRealms: tp.Split, Realms: map[string][]string{"SIM.TEST": addrs, "OTHER.TEST": {"10.0.1.1:88"}}, DomainRealm: map[string]string{".sim.test": "SIM.TEST", "sim.test": "SIM.TEST"}}
 	cfg, _, err := cm.Parse()
 	if err != nil {
 		res.Verdict, res.Harness = "harness-error", "krb5.conf: "+err.Error()
